@@ -790,7 +790,7 @@ package machine
 //@      && t.cacheTargetStates != nil && t.Mutation.cacheCalled != nil && t.cacheStatesBefore != nil
 //@      && nodup(*t.cacheTargetStates) && subset(*t.cacheTargetStates, t.Machine.stateNames)
 //@      && t.Machine.t == t && t.Machine.resolver != nil && t.Machine.subs != nil
-//@      && (t.IsAccepted ==> ExitEnterDef(t))
+//@      && (t.IsAccepted ==> ExitEnterDef(t)) && subset(t.Exits, t.Machine.stateNames)
 
 // Interface contracts of tracers (assumed of every implementation): callbacks
 // assign nothing of the machine; each call is counted.
@@ -847,7 +847,11 @@ package machine
 //@   requires locks: unlocked(m.activeStatesMx) && unlocked(m.schemaMx) && unlocked(m.logEntriesLock)
 //@   requires inv:   ClockInv(m) && !isnil(m.clock)
 //@   requires room:  forall s string :: m.clock[s] <= MaxU64 - 2
-//@   requires lists: nodup(m.t.Exits) && nodup(m.t.Enters) && subset(m.t.Exits, m.stateNames) && (forall j int :: 0 <= j && j < len(m.t.Exits) ==> !mem(m.t.Enters, m.t.Exits[j]) && !mem(m.activeStates, m.t.Exits[j]))
+//@   requires nodup_exits:  nodup(m.t.Exits)
+//@   requires nodup_enters: nodup(m.t.Enters)
+//@   requires exits_named:  subset(m.t.Exits, m.stateNames)
+//@   requires disjoint:     forall j int :: 0 <= j && j < len(m.t.Exits) ==> !mem(m.t.Enters, m.t.Exits[j])
+//@   requires exited:       m.disposing || (forall j int :: 0 <= j && j < len(m.t.Exits) ==> !mem(m.activeStates, m.t.Exits[j]))
 //@   requires named: (forall j int :: 0 <= j && j < len(m.t.Exits) ==> m.t.Exits[j] != "") && (forall j int :: 0 <= j && j < len(m.t.Enters) ==> m.t.Enters[j] != "")
 //@   requires fault: m.disposing || FaultAt(m.t, ghost.finalsDone)
 //@   assigns  m.activeStates, m.clock, m.activeStatesMx, Machine.logEntries, ghost.phase
@@ -920,15 +924,16 @@ package machine
 
 // The transition executor.
 //@ func (t *Transition) emitEvents() (res Result)
-//@   props C01 C03 C05 C06 C07 C14
+//@   props C01 C03 C05 C06 C07 C08 C14
 //@   abstracts the onChange callback and tracer callbacks are opaque (assumed not to assign machine state)
 //@   requires tx:    TxInv(t) && TargetOK(t) && t.cacheStatesBefore != nil && t.Machine.t == t && t.Machine.resolver != nil && t.Machine.subs != nil
 //@   requires owner: t.Machine.queueProcessing && QueueInv(t.Machine) && machOf(t.Machine.resolver) == t.Machine && unlocked(t.Machine.queueMx)
 //@   requires locks: unlocked(t.Machine.activeStatesMx) && unlocked(t.Machine.schemaMx) && unlocked(t.Machine.tracersMx) && unlocked(t.Machine.logEntriesLock)
 //@   requires inv:   ClockInv(t.Machine) && !isnil(t.Machine.clock) && SchemaInv(t.Machine)
 //@   requires room:  forall s string :: t.Machine.clock[s] <= MaxU64 - 4
-//@   requires start: ghost.phase == 0 && ghost.tStart == 0 && ghost.tFinals == 0 && ghost.tEnd == 0 && ghost.faults == 0
+//@   requires start: ghost.phase == 0 && ghost.tStart == 0 && ghost.tFinals == 0 && ghost.tEnd == 0 && ghost.faults == 0 && ghost.finalsDone == 0
 //@   requires tracers: forall i int :: 0 <= i && i < len(t.Machine.tracers) ==> t.Machine.tracers[i] != nil
+//@   requires named: forall s string :: mem(t.Machine.stateNames, s) ==> s != ""
 //@   assigns  *
 //@   ensures  res:           res == Executed || res == Canceled
 //@   ensures  frame:         ghost.applied == old(ghost.applied) ==> mapeq(t.Machine.clock, old(t.Machine.clock)) && seqeq(t.Machine.activeStates, old(t.Machine.activeStates))
@@ -941,6 +946,7 @@ package machine
 //@   ensures  inv:           ClockInv(t.Machine)
 //@   ensures  ctx_complete:  ghost.faults == old(ghost.faults) && !old(t.Mutation.IsAuto) && !t.Machine.disposing ==>
 //@                (forall s string :: t.Machine.clock[s] != old(t.Machine.clock[s]) ==> mem(t.cacheActivated, s) || mem(t.cacheDeactivated, s))
+//@   ensures  negotiation_fault: res == Canceled && ghost.faults == 0 && !old(t.Mutation.IsAuto) && !t.Machine.disposing ==> mapeq(t.Machine.clock, old(t.Machine.clock)) && seqeq(t.Machine.activeStates, old(t.Machine.activeStates))
 //@   ensures  traced_start:  t.Machine.disposed || ghost.tStart == len(t.Machine.tracers)
 //@   ensures  traced_end:    t.Machine.disposed || ghost.tEnd == len(t.Machine.tracers)
 //@   ensures  traced_finals: ghost.tFinals == 0 || t.Machine.disposed || ghost.tFinals == len(t.Machine.tracers)
